@@ -2163,6 +2163,13 @@ class _Linalg:
         return inverse(x)
 
     @staticmethod
+    def solve(a, b):
+        h = _Linalg.hooks.get("solve")
+        if h is not None:
+            return h(a, b)
+        return matmul(inverse(a), b)
+
+    @staticmethod
     def pinv(x, *a, **k):
         h = _Linalg.hooks.get("pinv")
         return h(x, *a, **k) if h is not None else _pinv(x, *a, **k)
